@@ -203,7 +203,7 @@ class TlcResult:
         return self.completed and not self.violated and not self.temporal and not self.deadlock
 
 
-def tlc(workdir, module, cfg=None, env=None, workers=None, timeout=900, simulate=None, depth=None,
+def tlc(workdir, module, cfg=None, env=None, workers=None, timeout=900, simulate=None, depth=None, allow_timeout=False,
         xmx="8g", extra=(), coverage=False, dfs=False):
     md = tempfile.mkdtemp(prefix="md.", dir=workdir)
     jopts = ["-XX:+UseParallelGC", "-Xmx" + xmx, "-Xss64m"]
@@ -229,9 +229,11 @@ def tlc(workdir, module, cfg=None, env=None, workers=None, timeout=900, simulate
                            capture_output=True, text=True, errors="replace")
     finally:
         shutil.rmtree(md, ignore_errors=True)
-    if r.returncode == 124:
+    if r.returncode == 124 and not allow_timeout:
         raise Infra("TLC timed out after %ds on %s" % (timeout, module))
-    return TlcResult(r.returncode, r.stdout + r.stderr, time.time() - t0)
+    res = TlcResult(r.returncode, r.stdout + r.stderr, time.time() - t0)
+    res.timed_out = r.returncode == 124
+    return res
 
 
 def spec_workdir(name, modules):
